@@ -203,7 +203,7 @@ class Spec(PropSpec):
     props_file = "C13.v"
     coq_targets = ["C13.vo"]
     theorems = ["c13_index_coherent", "c13_remove_clears", "c13_connect_iff", "c13_connect_result", "c13_synsent_outcomes",
-                "c13_accept_pops", "c13_reclaimed_partial", "c13_close_open", "c13_reclaimed_refuted", "c13_nonvacuous"]
+                "c13_accept_pops", "c13_accept_once", "c13_accept_logs", "c13_reclaimed_partial", "c13_close_open", "c13_reclaimed_refuted", "c13_nonvacuous"]
     consts = F.NET_CONSTS
     anchors = F.NET_ANCHORS
     harness_bins = ["nettcp"]
@@ -224,8 +224,7 @@ class Spec(PropSpec):
                     "sockets without a live connection, linger/RST on close of open ones, and the strictly decreasing retransmit "
                     "measure that bounds how long a lingering socket with something in flight survives; refuted on the code as "
                     "it is: reclamation of a lingering socket that has nothing in flight and whose peer is gone "
-                    "(class OrphanLinger, c13_reclaimed_refuted). Ownership / accept-exactly-once across whole histories is "
-                    "checked by the correspondence and the oracle, the proved part is c13_accept_pops")
+                    "(class OrphanLinger, c13_reclaimed_refuted)")
 
     def gen_cases(self, ctx):
         n = 220 if ctx.tier == "quick" else 3000
